@@ -16,13 +16,14 @@ func init() { registry["C19"] = propC19 }
 func propC19() *Property {
 	return &Property{
 		ID:          "C19",
-		Explanation: "Static dominance and table-agreement rules on package config and its consumers. Decided: (R1) config.parse returns a configuration only for an empty location, a missing file, or a decode without error AND without undecoded keys; defaults are stored before decoding into the same object; the package initialiser exits non-zero after a diagnostic on every error of parse and postprocess; (R2) for every field of Style.Colors (enumerated from the type) postprocess stores hexToAnsi of that same field with the error checked; hexToAnsi slices under len == 7 and parses each pair base 16 with the error checked; (R3) every read of a config.Parsed field anywhere in the module is in the consumer table, and for each consumer assumption (non-empty hook, positive cache size, non-negative preload amount, positive timeout) package config contains a comparison of that field whose failing edge reaches only error returns and which rejects every violating value. A new consumer without a table entry fails the check. (R4) every multiplication or shift of a value read from the configuration object by a constant inside package config is dominated by an upper bound that keeps the product inside its type. Not decided: TOML parsing itself; that two hex digits parse to 0..255 (library semantics).",
+		Explanation: "Static dominance and table-agreement rules on package config and its consumers. Decided: (R1) config.parse returns a configuration only for an empty location, a missing file, or a decode without error AND without undecoded keys; defaults are stored before decoding into the same object; the package initialiser exits non-zero after a diagnostic on every error of parse and postprocess; (R2) for every field of Style.Colors (enumerated from the type) postprocess stores hexToAnsi of that same field with the error checked; hexToAnsi slices under len == 7 and parses each pair base 16 with the error checked; (R3) every read of a config.Parsed field anywhere in the module is in the consumer table, and for each consumer assumption (non-empty hook, positive cache size, non-negative preload amount, positive timeout) package config contains a comparison of that field whose failing edge reaches only error returns and which rejects every violating value. A new consumer without a table entry fails the check. (R4) every multiplication or shift of a value read from the configuration object by a constant inside package config is dominated by an upper bound that keeps the product inside its type. (R6 = C20.R2) the hook list that is run is a full private copy of the list that was validated, element 0 the program. Not decided: TOML parsing itself; that two hex digits parse to 0..255 (library semantics).",
 		Assumptions: []string{"BurntSushi/toml reports unknown keys through MetaData.Undecoded", "strconv.ParseUint(s, 16, 0) of two characters is 0..255 or an error"},
 		Rules: []Rule{
 			{ID: "C19.R1", Title: "strict decoding, defaults first, exit on every error", Floor: 8, Run: c19R1},
 			{ID: "C19.R2", Title: "every colour is converted by hexToAnsi with its error checked", Floor: 7, Run: c19R2},
 			{ID: "C19.R3", Title: "every consumer assumption about a config value is validated", Floor: 15, Run: c19R3},
 			{ID: "C19.R4", Title: "arithmetic on validated settings cannot overflow", Floor: 0, Run: c19R4},
+			{ID: "C19.R6", Title: "the program of the media hook exists because the list that was validated at start-up is the list that is run: argv is a full private copy of config.Parsed.Media.Hook, element 0 the program (same instances as C20.R2)", Floor: 2, Run: c20R2},
 			{ID: "C19.R5", Title: "an accepted configuration cannot crash the feed it names: source k of the feed is input k, for any number of inputs (same instances as C11.R8)", Floor: 1, Run: c11R8},
 		},
 	}
@@ -709,6 +710,27 @@ func validated(P *Program, req consumerReq) (bool, string) {
 					isLen = true
 				}
 			}
+			// a widening conversion between signed integers keeps the value (`int64(network.Context) < 0`)
+			for d := 0; d < 3; d++ {
+				val = unwrapLoad(val)
+				if ct, isCT := val.(*ssa.ChangeType); isCT {
+					val = ct.X // time.Duration <-> int64: the same integer
+					continue
+				}
+				cv, isCv := val.(*ssa.Convert)
+				if !isCv {
+					break
+				}
+				from, ok1 := cv.X.Type().Underlying().(*types.Basic)
+				to, ok2 := cv.Type().Underlying().(*types.Basic)
+				if !ok1 || !ok2 || from.Info()&types.IsInteger == 0 || to.Info()&types.IsInteger == 0 || from.Info()&types.IsUnsigned != 0 || to.Info()&types.IsUnsigned != 0 {
+					break
+				}
+				if sizeOfInt(to) < sizeOfInt(from) {
+					break
+				}
+				val = cv.X
+			}
 			u, ok := val.(*ssa.UnOp)
 			if !ok {
 				continue
@@ -1194,4 +1216,16 @@ func blockInLoop(header, b *ssa.BasicBlock) bool {
 		}
 	}
 	return false
+}
+
+func sizeOfInt(b *types.Basic) int {
+	switch b.Kind() {
+	case types.Int8, types.Uint8:
+		return 1
+	case types.Int16, types.Uint16:
+		return 2
+	case types.Int32, types.Uint32:
+		return 4
+	}
+	return 8 // int, int64, uint, uint64, uintptr on the platforms servitor builds for
 }
